@@ -531,8 +531,6 @@ def rule_acct(ctx) -> None:
               "the committed byte total depends on the new item's cost", "the committed byte total ignores the new item's cost")
     # zero capacities short-circuit before any insert (all containers that must act disabled)
     for cq2, meth, cont, caps, idiom in CONTAINERS:
-        if cq2.endswith("_NamespaceCache"):
-            continue  # evict-after-insert empties it when max == 0
         fn = ctx.prog.methods(cq2)[meth]
         for n, t in _growing_inserts(ctx, fn, cont):
             ok = False
@@ -540,7 +538,9 @@ def rule_acct(ctx) -> None:
                 s = src(e)
                 if pol and s == "self.enabled":
                     ok = True
-                if (not pol) and all(c in s for c in caps) and "== 0" in s:
+                if (not pol) and all(c in s for c in caps) and ("== 0" in s or "<= 0" in s):
+                    ok = True
+                if pol and all(c in s for c in caps) and "> 0" in s:
                     ok = True
             ctx.check(ok, "C15.ACCT", f"{fn.qual}/disabled-short-circuit:{src(t)[:30]}", fn.loc(n.ast),
                       "inserts are dominated by the capacity>0 / enabled test (zero capacity acts as disabled)",
